@@ -285,6 +285,19 @@ class SimSlurm:
         j.node_vp = w.spawn("node", self._node_main(j), j.host, env, parent=None,
                             argv=["bash", w.rel(j.script)], slurm_id=j.id)
         j.node_vp.tags["slurm_job"] = j
+        ps = float(self.k.get("p_suspend", 0.0))
+        if ps > 0 and w.ch.flip(ps, "suspend"):
+            # gang scheduling / admin suspend: squeue reports SUSPENDED for a while
+            def suspend():
+                if j.state == "RUNNING":
+                    self._set_state(j, "SUSPENDED")
+                    w.after(w.ch.delay(1.0, 600.0, "suspend_len", log=True), resume, "slurm_resume")
+
+            def resume():
+                if j.state == "SUSPENDED":
+                    self._set_state(j, "RUNNING")
+
+            w.after(w.ch.delay(0.0, 60.0, "suspend_at"), suspend, "slurm_suspend")
         if w.enforce_walltime and j.walltime_s:
             w.at(j.start_time + j.walltime_s, lambda: self.end_abnormally(j, "TIMEOUT"), "walltime")
 
